@@ -1,26 +1,25 @@
 #!/bin/bash
-# Runs the registered quick check(s) of a property against a seeded change without touching /repo:
-# a scratch copy of /repo's working tree gets seeded/<dir>/patch.diff applied and the check is pointed at it
-# with VERIF_REPO.  Usage: tools/seedrun.sh <dir under seeded/> [property ids to run, default: the one in meta.json]
-# Output: seeded/<dir>/check_<pid>.txt (tail of the check's output).  Evidence files are restored afterwards and the
-# translator output is regenerated from /repo.
+# Runs the registered quick check(s) of a property against a seeded change without touching /repo or the
+# working copy of /verif: a scratch copy of /repo's working tree gets seeded/<dir>/patch.diff applied, a scratch
+# copy of /verif (with its compiled files) runs the check with VERIF_REPO pointing at the patched tree.
+# Usage: tools/seedrun.sh <dir under seeded/> [property ids to run, default: the one in meta.json]
+# Output: seeded/<dir>/check_<pid>.txt (verdict lines of the check's output).
 set -u
 ID=$1; shift
 SD=/verif/seeded/$ID
 PIDS="$*"
 [ -n "$PIDS" ] || PIDS=$(python3 -c "import json;print(json.load(open('$SD/meta.json'))['property'])")
 M=/var/tmp/mut-repo-$$
+V=/var/tmp/mut-verif-$$
 rsync -a --exclude _build --exclude .git /repo/ $M/ || exit 2
 ( cd $M && patch -p1 -s < $SD/patch.diff ) || { echo "patch does not apply"; rm -rf $M; exit 2; }
-cd /verif
+rsync -a --exclude .git --exclude evidence/replay --exclude seeded /verif/ $V/ || exit 2
+cd $V
 for p in $PIDS; do
-  cp evidence/$p.json /var/tmp/ev-$p-$$.json 2>/dev/null
   VERIF_REPO=$M timeout 3000 ./check $p --tier quick > /var/tmp/seedrun-$p-$$.log 2>&1
   rc=$?
-  { echo "# ./check $p --tier quick with seeded/$ID/patch.diff applied: exit $rc"; grep -E "VIOLATION" /var/tmp/seedrun-$p-$$.log | cut -c1-600 | head -8; grep -E "BROKEN|done in" /var/tmp/seedrun-$p-$$.log | cut -c1-600 | head -8; echo "# KNOWN-FINDING lines: $(grep -c KNOWN-FINDING /var/tmp/seedrun-$p-$$.log)"; } > $SD/check_$p.txt
+  { echo "# ./check $p --tier quick with seeded/$ID/patch.diff applied: exit $rc"; grep -E "VIOLATION" /var/tmp/seedrun-$p-$$.log | sed "s|$V|/verif|g" | cut -c1-600 | head -8; grep -E "BROKEN|done in" /var/tmp/seedrun-$p-$$.log | cut -c1-600 | head -8; echo "# KNOWN-FINDING lines: $(grep -c KNOWN-FINDING /var/tmp/seedrun-$p-$$.log)"; } > $SD/check_$p.txt
   echo "seedrun $ID $p: exit $rc $(grep -c VIOLATION /var/tmp/seedrun-$p-$$.log) violation line(s)"
-  [ -f /var/tmp/ev-$p-$$.json ] && mv /var/tmp/ev-$p-$$.json evidence/$p.json
   rm -f /var/tmp/seedrun-$p-$$.log
 done
-rm -rf $M
-python3 tools/c2g/genall.py >/dev/null 2>&1
+cd /; rm -rf $M $V
